@@ -343,7 +343,9 @@ def main():
     known = known_findings(pid)
     log = []
     os.makedirs(os.path.join(WORK, pid), exist_ok=True)
-    os.makedirs(os.path.join(ROOT, "evidence", "replay"), exist_ok=True)
+    # evidence and replays of runs against another tree (VERIF_REPO) never overwrite those of /repo
+    EVDIR = os.path.join(ROOT, "evidence") if REPO == "/repo" else os.path.join(WORK, pid, "evidence-alt")
+    os.makedirs(os.path.join(EVDIR, "replay"), exist_ok=True)
 
     # 1. translator
     rc, out = sh([sys.executable, os.path.join(ROOT, "tools", "extract_consts.py"), REPO], timeout=120)
@@ -419,7 +421,7 @@ def main():
         lines.append("KNOWN-FINDING: property=%s %s: %s (e.g. case %s: %s)" % (pid, k, known[k], c["id"], c["oracle_why"][:200]))
 
     def write_replay(tag, payload):
-        path = os.path.join(ROOT, "evidence", "replay", "%s-%s-%d-%s.json" % (pid, tier, seed, tag))
+        path = os.path.join(EVDIR, "replay", "%s-%s-%d-%s.json" % (pid, tier, seed, tag))
         with open(path, "w") as f:
             json.dump(payload, f, indent=1)
         return path
@@ -493,7 +495,7 @@ def main():
         "wall_s": round(time.time() - t0, 1),
         "violations": violations,
     }
-    with open(os.path.join(ROOT, "evidence", pid + ".json"), "w") as f:
+    with open(os.path.join(EVDIR, pid + ".json"), "w") as f:
         json.dump(ev, f, indent=1)
     with open(os.path.join(WORK, pid, "last.log"), "w") as f:
         f.write("\n".join(log))
